@@ -378,6 +378,15 @@ impl Model {
                     info.findings.push(Finding { clause: "oversize-cached", expected: format!("value of {fp} bytes > max_memory {:?} is not cached", cfg.max_memory), observed: "it is cached".to_string() });
                 } else if !existed || before[key].tag != *t {
                     info.findings.push(Finding { clause: "oversize-cached", expected: "key absent or previous value".to_string(), observed: format!("tag {t:x}") });
+                } else {
+                    // the previous value of the key survived a later store for the same key: after
+                    // store(k, v) a lookup of k may return v or nothing, never an older value
+                    // (C01 "last store wins"; C05 itself does not forbid it)
+                    info.findings.push(Finding {
+                        clause: "stale-after-oversize-store",
+                        expected: format!("{key:?} absent after a store whose value ({fp} bytes) exceeds max_memory {:?}: the older value must not be served again", cfg.max_memory),
+                        observed: format!("{key:?} still holds the previous value (tag {t:x})"),
+                    });
                 }
             }
             self.adopt(after, now_ns, None, info);
